@@ -588,7 +588,7 @@ def tie_getters(ctx):
     n = 0
     for _ in range(ctx.scale(10, 120)):
         case = gen_case(rng, path='vfw', small=True)
-        case['nd'] = {k: case['nd']['correlator_data'] for k in NAMES}
+        case['nd'] = {k: max(1, max(case['nd'].values())) for k in NAMES}
         for k in NAMES:
             case['chunks'][k][0] = rnd_chunks(rng, case['nd'][k])
             case['lost'][k] = [list(map(int, i)) for i in fx.all_chunk_indices(case['chunks'][k]) if rng.random() < 0.4]
@@ -973,7 +973,7 @@ def check_option_case(ctx, case, tag='c06opt'):
 
 def tie_options(ctx, given=None):
     rng = ctx.rng
-    cases = list(given) if given else [gen_option_case(rng) for _ in range(ctx.scale(30, 500))] + \
+    cases = list(given) if given else [gen_option_case(rng) for _ in range(ctx.scale(26, 500))] + \
         [gen_option_case(rng, path='v4') for _ in range(ctx.scale(4, 60))]
     for case in cases:
         nt = check_option_case(ctx, case)
@@ -1235,11 +1235,11 @@ def run(ctx):
         tie_chunk_info(ctx)
         tie_getters(ctx)
     rng = ctx.rng
-    hist = [gen_history(rng) for _ in range(ctx.scale(110, 2500))]
+    hist = [gen_history(rng) for _ in range(ctx.scale(100, 2500))]
     run_histories(ctx, hist)
     tie_options(ctx)
-    cases = [gen_case(rng) for _ in range(ctx.scale(450, 6000))]
-    cases += [gen_case(rng, small=True) for _ in range(ctx.scale(150, 1500))]
+    cases = [gen_case(rng) for _ in range(ctx.scale(380, 6000))]
+    cases += [gen_case(rng, small=True) for _ in range(ctx.scale(120, 1500))]
     cases += [gen_case(rng, path='v4', small=True) for _ in range(ctx.scale(6, 200))]
     for i in range(0, len(cases), 200):
         run_cases(ctx, cases[i:i + 200])
